@@ -4,12 +4,12 @@ import "math/rand"
 
 // Profile tunes the queue history generator.
 type Profile struct {
-	Steps     int
-	MaxEvent  int  // max event size in bytes
-	Boundary  bool // prefer sizes around page / header boundaries
-	Reopen    bool
-	PageSize  int
-	AckPct    int
+	Steps    int
+	MaxEvent int  // max event size in bytes
+	Boundary bool // prefer sizes around page / header boundaries
+	Reopen   bool
+	PageSize int
+	AckPct   int
 }
 
 func eventSize(r *rand.Rand, p Profile) int {
